@@ -42,6 +42,11 @@ TAGS = {
     28: 'add_time_after_dose differs from the per-individual walk',
     29: 'expand_additional_doses yields a wrong number of records',
     31: 'get_number_of_observations_per_individual differs from the walk (or raises)',
+    32: 'add_cmt changes other columns / rows / order / dtypes, or its CMT column is not get_cmt',
+    33: 'add_admid changes other columns / rows / order / dtypes, or its ADMID column is not get_admid',
+    34: 'get_ids / get_number_of_individuals differ from the walk',
+    35: 'get_covariate_baselines differs from the walk',
+    36: 'expand_additional_doses: the expanded frame is not the multiset of implied doses (TIME + k*II, other fields kept)',
 }
 CORR = set(range(1, 10))
 # oracle tag -> (correspondence tag that must be absent, [(guard tag that must be present, finding id)])
@@ -62,6 +67,7 @@ ORACLE = {
     25: (8, []),
     26: (9, [(208, 'C14-EVID-OTHER-RECORDS')]),
     27: (0, []),
+    32: (8, []), 33: (9, []), 34: (7, []), 35: (7, []), 36: (4, []),
 }
 # input-domain guards (not defects): an oracle failure is also excused when one of these is false
 DOMAIN = {13: [204, 203], 14: [204], 18: [204, 217], 28: [204, 203], 16: [204]}
@@ -77,7 +83,59 @@ class Unconvertible(Exception):
 
 
 # ------------------------------------------------------------------ generator
-def gen_spec(rng, clean=None):
+DYADIC = {'dt': ['0', '0', '0', '1/2', '1', '1', '2', '4', '1/4'], 'amt': ['1', '2', '5/2', '10', '100'],
+          'ii': ['1/2', '1', '2', '4', '12'], 'ii0': ['1', '12'], 'covstep': ['1', '1/2'], 'dvden': 4, 'start': [0, 0, 0, 1]}
+# decimal values: not representable in binary, kept only when every float operation the code performs on them
+# is exact (see exact_ok)
+DECIMAL = {'dt': ['0', '0', '0', '0.1', '0.2', '0.25', '0.5', '1', '1.5', '2.4', '4', '0.3'],
+           'amt': ['1', '2.5', '0.3', '10', '100.5', '0.07'], 'ii': ['0.5', '1', '2.4', '12', '0.1', '0.2', '6.5'],
+           'ii0': ['1', '0.1'], 'covstep': ['0.1', '1.3'], 'dvden': 100, 'start': [0, 0, '0.1', 1]}
+
+
+def exact_ok(spec):
+    """The float-exactness domain of the model: every operation the code performs on TIME / II is exact for the
+    float values of this dataset — ii*k and ii*k + time for k <= ADDL (expand_additional_doses), and every
+    difference of two times of one individual, expanded times included (diff and cumsum of add_time_after_dose;
+    a partial sum of the differences is again such a difference)."""
+    col = {t: j for j, (_, t) in enumerate(spec['cols'])}
+    if 'idv' not in col:
+        return True
+    times = {}
+    for r in spec['rows']:
+        i = F(r[col['id']])
+        t = float(F(r[col['idv']]))
+        ts = times.setdefault(i, [])
+        ts.append(t)
+        if 'additional' in col and 'ii' in col:
+            ii = float(F(r[col['ii']]))
+            for k in range(1, int(F(r[col['additional']])) + 1):
+                p = ii * k
+                if F(p) != F(ii) * k:
+                    return False
+                q = p + t
+                if F(q) != F(p) + F(t):
+                    return False
+                ts.append(q)
+    for ts in times.values():
+        u = sorted(set(ts))
+        for a in u:
+            for b in u:
+                if F(a - b) != F(a) - F(b):
+                    return False
+    return True
+
+
+def gen_spec(rng, clean=None, decimal=None):
+    if decimal is None:
+        decimal = rng.random() < 0.25
+    for _ in range(30 if decimal else 1):
+        spec = _gen_spec(rng, clean, DECIMAL if decimal else DYADIC)
+        if exact_ok(spec):
+            return spec
+    return _gen_spec(rng, clean, DYADIC)
+
+
+def _gen_spec(rng, clean, V):
     """clean: datasets inside every guard (ascending ids named ID, default index, chronological, no tie
     with a first dose, no observation between tied doses, resets without a restart of time, MDV consistent
     with AMT, at least two observations / doses, a covariate) — there the walk oracle must hold exactly.
@@ -133,14 +191,14 @@ def gen_spec(rng, clean=None):
     blocks = []
     for i in ids:
         n = rng.choice([1, 2, 3, 3, 4, 4, 5, 6, 7])
-        t = F(rng.choice([0, 0, 0, 1]))
+        t = F(rng.choice(V['start']))
         base_cov = [F(rng.choice([50, 60, 70])), F(rng.choice([20, 30]))]
         recs = []
         ndoses = 0              # doses so far
         tie_state = None        # in clean mode: what happened at the current time point: 'first', 'dose', 'dose-obs'
         first = True
         for _ in range(n):
-            dt = F(rng.choice(['0', '0', '0', '1/2', '1', '1', '2', '4', '1/4']))
+            dt = F(rng.choice(V['dt']))
             kinds = ['dose'] * 7 + ['obs'] * 10
             if use_evid or (use_mdv and not clean):
                 kinds += ['other']
@@ -171,14 +229,14 @@ def gen_spec(rng, clean=None):
             if k in ('dose', 'resetdose'):
                 ndoses += 1
                 tie_state = 'first' if ndoses == 1 else 'dose'
-                rec['amt'] = F(rng.choice(['1', '2', '5/2', '10', '100']))
+                rec['amt'] = F(rng.choice(V['amt']))
                 rec['evid'] = F(1 if k == 'dose' else 4)
                 rec['mdv'] = F(1)
                 if use_addl and rng.random() < 0.5:
                     rec['addl'] = F(rng.choice([1, 1, 2, 3]))
-                    rec['ii'] = F(rng.choice(['1/2', '1', '2', '4', '12']))
+                    rec['ii'] = F(rng.choice(V['ii']))
                 elif rng.random() < 0.1:
-                    rec['ii'] = F(rng.choice(['1', '12']))
+                    rec['ii'] = F(rng.choice(V['ii0']))
                 if rng.random() < 0.25:
                     rec['ss'] = F(rng.choice([1, 1, 2]))
                 if rng.random() < 0.3:
@@ -187,7 +245,7 @@ def gen_spec(rng, clean=None):
                 if tie_state == 'dose':
                     tie_state = 'dose-obs'
                 if k == 'obs':
-                    rec['dv'] = F(rng.randrange(0, 200), 4)
+                    rec['dv'] = F(rng.randrange(0, 200 * V['dvden'] // 4), V['dvden'])
                     if use_mdv and (use_evid or not clean) and rng.random() < 0.12:
                         rec['mdv'] = F(1)               # observation record with a missing DV (MDV=1, EVID=0)
                         rec['dv'] = F(0)
@@ -199,7 +257,7 @@ def gen_spec(rng, clean=None):
                     rec['mdv'] = F(1)
             covs = list(base_cov)
             if rng.random() < 0.15:
-                covs[rng.randrange(2)] += F(rng.choice(['1', '1/2']))
+                covs[rng.randrange(2)] += F(rng.choice(V['covstep']))
             rec['covs'] = covs
             recs.append(rec)
         blocks.append(recs)
@@ -252,11 +310,13 @@ def gen_spec(rng, clean=None):
         index = sorted(rng.sample(range(0, 2 * n + 2), n))
     else:
         index = rng.sample(range(0, n + 3), n)
-    return {'kind': kind, 'cols': cols, 'rows': rows, 'index': index, 'scale': 4, 'mode': 'clean' if clean else 'wild'}
+    return {'kind': kind, 'cols': cols, 'rows': rows, 'index': index, 'scale': 4 if V is DYADIC else 'auto',
+            'mode': ('clean' if clean else 'wild') + ('' if V is DYADIC else '-decimal')}
 
 
 # ------------------------------------------------------------------ implementation side
 _BASE = {}
+EXTRA_FUNCTIONS = ['get_ids', 'get_number_of_individuals', 'get_covariate_baselines', 'add_cmt', 'add_admid']
 FUNCTIONS = ['add_time_after_dose', 'expand_additional_doses', 'get_admid', 'get_baselines', 'get_cmt', 'get_doseid',
              'get_doses', 'get_evid', 'get_mdv', 'get_number_of_observations',
              'get_number_of_observations_per_individual', 'get_observations', 'list_time_varying_covariates']
@@ -314,6 +374,15 @@ class Exporter:
     def __init__(self, spec):
         self.cols = spec['cols']
         self.scale = spec['scale']
+        if self.scale == 'auto':
+            # the unit of the scaled columns: the smallest power of two in which every input value is integral
+            # (the float value of a decimal like 0.1 is m * 2**-55); exact results are integral in it as well
+            den = 1
+            for r in spec['rows']:
+                for j, (_, typ) in enumerate(spec['cols']):
+                    if typ in ('idv', 'dose', 'dv', 'ii', 'covariate', 'unknown'):
+                        den = max(den, F(float(F(r[j]))).denominator)
+            self.scale = den
 
     def num(self, x, scaled):
         import math
@@ -351,7 +420,15 @@ class Exporter:
                                                         f['evid'], f['mdv'], f['cmt'], f['admid'], f['ss'], f['addl'], f['ii']])
                 + ' ' + ct.lst([ct.z(x) for x in covs]) + ' ' + ct.lst([ct.z(x) for x in other]) + ')')
 
-    def frame_rows(self, df, extra=None):
+    def frame_rows(self, df, extra=None, more_cols=()):
+        saved = self.cols
+        self.cols = list(self.cols) + [c for c in more_cols if c[0] not in [n for n, _ in self.cols]]
+        try:
+            return self._frame_rows(df, extra)
+        finally:
+            self.cols = saved
+
+    def _frame_rows(self, df, extra=None):
         cols = set(df.columns)
         out = []
         labels = list(df.index)
@@ -467,11 +544,36 @@ def observe(spec):
     cmt = run('get_cmt', lambda: get_cmt(model), lambda r: labelled(ex, r))
     admid = run('get_admid', lambda: get_admid(model), lambda r: labelled(ex, r))
 
+    ids = ct.lst([ex.z(i) for i in fns.get_ids(model)]); unchanged()
+    nind = ex.z(fns.get_number_of_individuals(model)); unchanged()
+
+    def conv_covbase(r):
+        covnames = [n for n, t in spec['cols'] if t == 'covariate']
+        return ct.lst([ct.pair(ex.z(i), ct.lst([ex.z(rec[n], True) for n in covnames])) for i, rec in r.iterrows()])
+    covbase = run('covbase', lambda: fns.get_covariate_baselines(model), conv_covbase)
+
+    def added(fn, colname, typ, key):
+        def conv(m):
+            d = m.dataset
+            old = [c for c in d.columns if c in set(df0.columns)]
+            new = [c for c in d.columns if c not in set(df0.columns)]
+            meta = (old == list(df0.columns) and [str(d[c].dtype) for c in old] == [str(df0[c].dtype) for c in old]
+                    and list(d.columns) == old + new and new in ([], [colname])
+                    and list(d.index) == list(df0.index)
+                    and (typ in [c.type for c in m.datainfo]))
+            info[key] = bool(meta)
+            return ct.lst([t for t, _ in ex.frame_rows(d, more_cols=[[colname, typ]])])
+        return conv
+    add_cmt_t = run('add_cmt', lambda: fns.add_cmt(model), added(fns.add_cmt, 'CMT', 'compartment', 'add_cmt_meta'))
+    add_admid_t = run('add_admid', lambda: fns.add_admid(model), added(fns.add_admid, 'ADMID', 'admid', 'add_admid_meta'))
+
     term = ('(mkCase ' + ds + f' {ncov}%nat ' + mi + '\n  ' + mdv + '\n  ' + evid + '\n  ' + obs + '\n  ' + doses
             + '\n  ' + nobs + ' ' + nobs_per + '\n  ' + ct.lst(bl_rows) + ' ' + tvc + '\n  ' + doseid + '\n  ' + expand
             + ' ' + ct.boolean(info.get('expand_idint', False)) + '\n  ' + tad + ' ' + ct.boolean(info.get('tad_idint', False))
-            + '\n  ' + cmt + '\n  ' + admid + ' ' + ct.boolean(immutable[0]) + ')')
-    info['ncalls'] = 13
+            + '\n  ' + cmt + '\n  ' + admid + ' ' + ct.boolean(immutable[0])
+            + '\n  ' + ids + ' ' + nind + ' ' + covbase + '\n  ' + add_cmt_t + ' ' + ct.boolean(info.get('add_cmt_meta', False))
+            + '\n  ' + add_admid_t + ' ' + ct.boolean(info.get('add_admid_meta', False)) + ')')
+    info['ncalls'] = 18
     return term, info
 
 
@@ -528,7 +630,7 @@ def observe_all(specs):
     import multiprocessing as mp
     impl()
     base_model('iv'), base_model('oral'), base_model('ivoral')          # built once, inherited by the workers
-    with mp.get_context('fork').Pool(min(JOBS, 8)) as pool:
+    with mp.get_context('fork').Pool(min(JOBS, 12)) as pool:
         return pool.map(_observe_safe, specs, chunksize=16)
 
 
@@ -549,6 +651,8 @@ def run_specs(ctx, specs, label, quiet=False):
         kept.append(spec)
         infos.append(info)
     ctx.coverage['skipped_unconvertible'] = ctx.coverage.get('skipped_unconvertible', 0) + skipped
+    if len(specs) > 64:
+        ctx.log(f'implementation run on {len(specs)} datasets; comparing inside Coq')
     verdicts = ctx.run_cases(label, IMPORTS, 'case', terms, 'verdict', shard=60 if ctx.tier == 'quick' else 100)
     stats = {'ok': 0, 'known': 0, 'violation': 0, 'broken': 0}
     for spec, tags, info in zip(kept, verdicts, infos):
@@ -596,8 +700,14 @@ def run(ctx):
         'functions in C14/Model.v validated by the correspondence',
     ]
     ctx.assumptions += [
-        'times, amounts, intervals and observations are dyadic rationals of small magnitude, so the float arithmetic '
-        'of the implementation (ii*x + time, diff, cumsum) is exact; rounding of general floats is not covered',
+        'float-exactness domain: the only arithmetic the modelled code performs on data values is ii*k and ii*k + time '
+        '(k <= ADDL, expand_additional_doses) and, in add_time_after_dose, the difference of consecutive times of an '
+        '(individual, DOSEID) group and the running sum of these differences; AMT, DV, covariates are only copied and '
+        'compared.  The generator produces dyadic values (always exact) and decimal values such as 0.1, 0.3, 2.4 '
+        '(25 % of the datasets) that are kept only when exact_ok() confirms that each of these float operations is '
+        'exact for the dataset (every product ii*k, every sum ii*k + time and every difference of two times of one '
+        'individual is representable); values are exported in units of 2**-e with e up to 55.  Datasets on which one of '
+        'these operations rounds are not covered (there the result differs from the exact walk by the rounding error)',
         'negative AMT / ADDL, non-integral ADDL, NaN entries and duplicate index labels are outside the model '
         '(not generated)',
         'TIME/DATE translation (translate_nmtran_time) is the identity on the generated float TIME columns; '
@@ -617,7 +727,7 @@ def run(ctx):
     reg = sorted((VERIF / 'regress' / 'C14').glob('*.json'))
     specs = [json.loads(p.read_text()) for p in reg]
     specs = [s.get('spec', s) for s in specs]
-    n = 800 if ctx.tier == 'quick' else 5000
+    n = 600 if ctx.tier == 'quick' else 2000
     n = int(os.environ.get('VERIF_C14_NGEN', n))       # sensitivity experiments only
     specs += [gen_spec(ctx.rng) for _ in range(n)]
     if ctx.tier == 'thorough' and 'VERIF_C14_NGEN' not in os.environ:
@@ -633,7 +743,7 @@ def run(ctx):
     ctx.coverage['programs'] = len(kept)
     ctx.coverage['rule'] = ('random event datasets (1-6 individuals, 1-7 records each, doses/observations/other/reset '
                             'events with ties, ADDL/II, SS, optional EVID/MDV/CMT/ADMID/RATE/covariate columns, id order '
-                            'ascending/shuffled/non-contiguous, default or explicit index) from VERIF_SEED; 13 derivations '
+                            'ascending/shuffled/non-contiguous, default or explicit index) from VERIF_SEED; 18 derivations '
                             'per dataset; non-trivial = at least two records; distinct by dataset text')
     ctx.coverage['case_status'] = stats
 
@@ -647,6 +757,7 @@ def run(ctx):
         'with_expansion': sum(1 for s in kept if any(t == 'additional' for _, t in s['cols'])),
         'with_event_column': sum(1 for s in kept if any(t == 'event' for _, t in s['cols'])),
         'explicit_index': sum(1 for s in kept if s['index'] is not None),
+        'decimal_values': sum(1 for s in kept if str(s.get('mode', '')).endswith('decimal')),
     }
     ctx.coverage['samples'] = [{'spec': s, 'tags': v} for s, v in list(zip(kept, verdicts))[:4]]
 
